@@ -416,7 +416,7 @@ func genC19(r *rand.Rand, tier string) []Case {
 				c.Scans = append(c.Scans, kinds[r.Intn(len(kinds))])
 			}
 			if i%2 == 0 {
-				c.Scans = append(c.Scans, "superclose", "writerseek", "tblidx", "tblidx", "tblidx", "tblidx", "seqfile", "protoread")
+				c.Scans = append(c.Scans, "superclose", "writerseek", "tblidx", "tblidx", "tblidx", "tblidx", "seqfile", "protoread", "mmapnoopen", "mmapbadopen", "writerfile")
 			}
 			cases = append(cases, c)
 			continue
